@@ -1,17 +1,32 @@
 import Pyrtma.Proofs.Emit
+import Pyrtma.Proofs.Loads
 import Pyrtma.Props.C04tables
 /-!
 # C15 — accepted definitions yield outputs that load in their language
 
 Theorems about `Model/Emit.lean` (`elaborate` = the registry-building part of `Parser.parse_text`, `emit` = the four
 back ends, `loads` = the evaluation discipline of each target language).
+
+* `compile_total(_inst)` — the parse of a documented closure never ends in an internal error;
+* `no_backend_error` — for every closure that parses (distinct names) no back end raises;
+* `loadable` — **for every registry the parser can produce**, outside the two finding classes, the Python module
+  imports, the C header compiles after `RTMA.h`, the JavaScript module loads with callable factories, the MATLAB script
+  reads only what it has assigned (closures that define `RTMA_MSG_HEADER`);
+* `python_loads_iff`, `matlab_loads_iff`, `javascript_loads_iff` — the side conditions are exact: the output loads
+  **iff** `R.aliasOfStruct = false` (class of the open finding C15-F3) and, for Python / MATLAB, `R.structUsesMsg = false`
+  (class of C15-F4); JavaScript is not affected by the second (its factories resolve names when called);
+* `js_fresh` — arrays of objects are built with one factory call per element;
+* kernel-evaluated witnesses of both finding classes (`loadable_refuted_*`) and of the positive side.
+Supporting proofs: `Proofs/Scoped.lean` (`RegOK`: every alias / field of the registry names what the parser resolved it
+to, structs and messages refer backwards; disjoint name tables), `Proofs/Loads.lean` (`loadEager` / `loadJs` calculus,
+`eager_loads`, `eager_necessary`, the four printers).
+Decided on the implementation every run: that the real `.py/.h/.js/.m` are the model's statements (CORR emit.*), that
+CPython / gcc / node / the `.m` interpreter agree with `loads` on them (CORR loads.*), and that the tools' verdicts are
+what the theorems predict from the model's registry alone (CORR predict.*).  Partial: "loads in its language" is those
+tools; no converse for C; identifiers are assumed legal in all four languages.
 -/
 namespace Pyrtma.C15
 open Pyrtma.Emit Pyrtma.Layout
-
-/-- the parser's own ctypes table knows every native type (`NativeType.name`) and `char` (padding) -/
-def TablesCt (T : Tables) : Prop :=
-  (∀ r ∈ T.natives, T.parserCt.contains r.2.1 = true) ∧ T.parserCt.contains T.charName = true
 
 theorem check_error_alignment (ap : Bool) {fs : List Fld} (hw : wfInput fs = true) (hne : fs ≠ []) {e : Layout.Err}
     (h : checkAlignment ap fs = .error e) : e = .alignment := by
@@ -29,28 +44,6 @@ theorem check_error_alignment (ap : Bool) {fs : List Fld} (hw : wfInput fs = tru
     · split at h
       · simp at h; exact h.symm
       · simp at h
-
-theorem ctOk_true {T : Tables} (hC : TablesCt T) (R : Reg) (fs : List FieldR) : ctOk T R fs = true := by
-  unfold ctOk
-  simp only [List.all_eq_true]
-  intro f _
-  split
-  · rename_i k hk
-    unfold ctKey at hk
-    split at hk
-    · cases hn : assoc T.natives f.ty with
-      | none => simp [hn] at hk
-      | some v => simp [hn] at hk; subst hk; exact hC.1 _ (assoc_mem hn)
-    · split at hk
-      · rename_i a _
-        split at hk
-        · simp at hk
-        · cases hn : assoc T.natives a.target with
-          | none => simp [hn] at hk
-          | some v => simp [hn] at hk; subst hk; exact hC.1 _ (assoc_mem hn)
-      · simp at hk
-    · simp at hk
-  · rfl
 
 /-- `validate_msg_def` on a non-empty, well-formed field list never ends in an internal error -/
 theorem layoutDef_not_internal {T : Tables} (hC : TablesCt T) {R : Reg} {ap : Bool} {fs : List FieldR}
@@ -120,6 +113,7 @@ theorem compile_total {T : Tables} (hT : TablesWf T) (hC : TablesCt T) (ap : Boo
       | hostId n v => simp [elabItem] at he
       | moduleId n v => simp [elabItem] at he
       | signal n id h => simp only [elabItem] at he; split at he <;> simp at he
+      | reserved n id h => simp only [elabItem] at he; split at he <;> simp at he
       | alias n t =>
         simp only [elabItem] at he
         unfold elabAlias at he
@@ -210,14 +204,85 @@ theorem compile_total_inst (ap : Bool) (items : List (Bool × Item)) (h : docume
     elaborate tables ap items {} ≠ .error .internal :=
   compile_total tables_wf tables_ct ap items {} regWf_empty h
 
-/-! ### Loadability
+/-! ### Loadability (`Proofs/Scoped.lean`: the registries are well scoped; `Proofs/Loads.lean`: the four programs)
 
-Full statement (`loadable`): `elaborate T ap items {} = .ok R → ∀ l, progBad (emit T R l) = false ∧ loads l (emit T R l) = true`.
-It is **false** for the emission order of the code (aliases, then structs, then messages) — refuted below with the two
-concrete closures of the open findings C15-F3 / C15-F4 — and true for the closures outside their signatures, which
-is what the harness checks on the real outputs with CPython, gcc, node and the `.m` interpreter.  A general proof of
-the restricted statement (an induction over the emission order with the parse-order invariant "defined before used")
-is not done; `js_fresh` and `compile_total` above are proved at full strength. -/
+`loads l (emit T R l)` is the evaluation discipline of the target language applied to the model's program (Python module
+body, C translation unit after `RTMA.h`, MATLAB script: every name must have been defined by an earlier statement;
+JavaScript: every name space initialised before it is written, every factory refers to callables).  For every closure
+that parses and whose alias / struct / message names are distinct (C12), with the tables of the working tree:
+
+* no back end raises (`no_backend_error`);
+* `loadable`: under the two side conditions `R.aliasOfStruct = false` (no alias resolves to a struct) and
+  `R.structUsesMsg = false` (no struct has a message-typed field) all four outputs load;
+* the side conditions are *exactly* the classes of the open findings: `python_loads_iff`, `matlab_loads_iff`
+  (both conditions), `javascript_loads_iff` (the first only: factories resolve names when called).
+  For C the converse is not stated (what `RTMA.h` provides can rescue a header), only `loadable`. -/
+
+theorem tables_total : TablesTotal tables := tablesTotal_of (by decide +kernel)
+
+/-- what `elaborate` guarantees about the registry it returns -/
+theorem elaborate_ok_facts {ap : Bool} {items : List (Bool × Item)} {R : Reg}
+    (h : elaborate tables ap items {} = .ok R) (hnd : (defNames items).Nodup) :
+    RegOK tables R ∧ Disj R ∧ StructsNE R :=
+  ⟨elaborate_regOK tables_total.char items (regOK_empty tables) h, elaborate_disj h hnd,
+   elaborate_structsNE tables_wf items regWf_empty (by intro d hd; simp at hd) h⟩
+
+/-- **`no_backend_error`.**  For every closure that parses (names distinct), none of the four back ends hits its
+`raise RuntimeError("Unknown field ...")` / `KeyError` paths. -/
+theorem no_backend_error {ap : Bool} {items : List (Bool × Item)} {R : Reg}
+    (h : elaborate tables ap items {} = .ok R) (hnd : (defNames items).Nodup) (l : Lang) :
+    progBad (emit tables R l) = false := by
+  obtain ⟨hR, hD, _⟩ := elaborate_ok_facts h hnd
+  cases l
+  · exact py_notBad hR hD tables_total
+  · exact c_notBad hR hD tables_total
+  · exact js_notBad hR hD tables_total
+  · exact m_notBad hR hD tables_total
+
+theorem sideA {R : Reg} (h : R.aliasOfStruct = false) : ∀ a ∈ R.aliases, a.isStruct = false := by
+  simpa [Reg.aliasOfStruct] using h
+
+theorem sideM {R : Reg} (h : R.structUsesMsg = false) : ∀ d ∈ R.structs, ∀ f ∈ d.fields, f.kind ≠ .message := by
+  simpa [Reg.structUsesMsg] using h
+
+/-- **`loadable`.**  Every closure that parses (names distinct) and is outside the classes of C15-F3 / C15-F4 yields
+a Python module that imports, a C header that compiles after `RTMA.h` (`cPre R`: the core definitions), a JavaScript
+module that loads with callable factories, and — if it defines `RTMA_MSG_HEADER` — a MATLAB script that only reads
+what it has assigned. -/
+theorem loadable {ap : Bool} {items : List (Bool × Item)} {R : Reg}
+    (h : elaborate tables ap items {} = .ok R) (hnd : (defNames items).Nodup)
+    (hA : R.aliasOfStruct = false) (hM : R.structUsesMsg = false) :
+    loads .py (emit tables R .py) = true ∧ loads .c (emit tables R .c) (cPre R) = true ∧
+    loads .js (emit tables R .js) = true ∧
+    (tables.hdrName ∈ structNames R → loads .m (emit tables R .m) = true) := by
+  obtain ⟨hR, hD, hN⟩ := elaborate_ok_facts h hnd
+  exact ⟨py_loads hR hD tables_total (sideA hA) (sideM hM), c_loads hR hD tables_total (sideA hA) (sideM hM) hN,
+    js_loads hR hD tables_total (sideA hA), m_loads hR hD tables_total (sideA hA) (sideM hM)⟩
+
+/-- **`python_loads_iff`**: the generated Python module imports iff the closure is outside both finding classes -/
+theorem python_loads_iff {ap : Bool} {items : List (Bool × Item)} {R : Reg}
+    (h : elaborate tables ap items {} = .ok R) (hnd : (defNames items).Nodup) :
+    loads .py (emit tables R .py) = true ↔ (R.aliasOfStruct = false ∧ R.structUsesMsg = false) := by
+  obtain ⟨hR, hD, _⟩ := elaborate_ok_facts h hnd
+  rw [show emit tables R .py = emitPy tables R from rfl, py_loads_iff hR hD tables_total]
+  simp [Reg.aliasOfStruct, Reg.structUsesMsg]
+
+/-- **`matlab_loads_iff`** (closures that define `RTMA_MSG_HEADER`) -/
+theorem matlab_loads_iff {ap : Bool} {items : List (Bool × Item)} {R : Reg}
+    (h : elaborate tables ap items {} = .ok R) (hnd : (defNames items).Nodup) (hh : tables.hdrName ∈ structNames R) :
+    loads .m (emit tables R .m) = true ↔ (R.aliasOfStruct = false ∧ R.structUsesMsg = false) := by
+  obtain ⟨hR, hD, _⟩ := elaborate_ok_facts h hnd
+  rw [show emit tables R .m = emitM tables R from rfl, m_loads_iff hR hD tables_total hh]
+  simp [Reg.aliasOfStruct, Reg.structUsesMsg]
+
+/-- **`javascript_loads_iff`**: a struct using a message does not hurt (factories resolve names when called), an alias of a
+struct does (it is stored under `RTMA.SDF` before `RTMA.SDF` exists) -/
+theorem javascript_loads_iff {ap : Bool} {items : List (Bool × Item)} {R : Reg}
+    (h : elaborate tables ap items {} = .ok R) (hnd : (defNames items).Nodup) :
+    loads .js (emit tables R .js) = true ↔ R.aliasOfStruct = false := by
+  obtain ⟨hR, hD, _⟩ := elaborate_ok_facts h hnd
+  rw [show emit tables R .js = emitJs tables R from rfl, js_loads_iff hR hD tables_total]
+  simp [Reg.aliasOfStruct]
 
 /-- imported file: `struct Inner {uint8 p; int32 q}`; importer: `alias AS = Inner`, `struct Outer {AS d}` -/
 def f3Items : List (Bool × Item) :=
@@ -257,7 +322,15 @@ theorem loadable_witness :
          (false, .signal 508 1001 4),
          (false, .message 509 1002 5 (.list [(512, 506, some 2), (513, 511, none)]))] {} with
      | .ok R => [Lang.py, .c, .js, .m].all (fun l => !progBad (emit tables R l) && loads l (emit tables R l)) &&
-                documented tables true [] R
+                documented tables true [] R &&
+                -- the hypotheses of `loadable` hold for it
+                !R.aliasOfStruct && !R.structUsesMsg && (structNames R).contains tables.hdrName
      | .error _ => false) = true := by decide +kernel
+
+/-- the two witnesses are in the finding classes the iff theorems name, with distinct names -/
+example : (match elaborate tables true f3Items {}, elaborate tables true f4Items {} with
+    | .ok R3, .ok R4 => R3.aliasOfStruct && !R3.structUsesMsg && !R4.aliasOfStruct && R4.structUsesMsg &&
+        decide ((defNames f3Items).Nodup) && decide ((defNames f4Items).Nodup)
+    | _, _ => false) = true := by decide +kernel
 
 end Pyrtma.C15
